@@ -351,7 +351,7 @@ func recordMain(args []string) {
 		fmt.Printf("{\"written\":%d,\"skipped\":%d,\"panics\":%d}\n", written, skipped, panics)
 		return
 	}
-	if *mode == "typed" || *mode == "typedmutate" {
+	if *mode == "typed" || *mode == "typedmutate" || *mode == "typedcarrier" {
 		// type-directed grower (typed.go): expressions that mean something on the document they are run on;
 		// typedmutate applies one to three small edits to each (lets, by-functions, filters and calls cut,
 		// doubled or unbalanced: mostly outside the grammar, C04)
@@ -364,6 +364,11 @@ func recordMain(args []string) {
 				for k := 1 + g.r.Intn(3); k > 0; k-- {
 					e = g.edit(e)
 				}
+			}
+			if *mode == "typedcarrier" {
+				// C14: every number of the document in a randomly chosen native Go representation that holds
+				// it exactly; the specification does not know the carrier, so the admissible set is the same
+				doc = recarry(g.r, doc)
 			}
 			emit(fmt.Sprintf("typ%d.%d", *seed, i), e, doc)
 		}
@@ -396,4 +401,38 @@ func recordMain(args []string) {
 		emit(fmt.Sprintf("rnd%d.%d", *seed, i), e, doc)
 	}
 	fmt.Printf("{\"written\":%d,\"skipped\":%d,\"panics\":%d}\n", written, skipped, panics)
+}
+
+var nativeKinds = []string{"float64", "float32", "float64", "int", "int64", "int32", "int16", "int8", "uint", "uint32", "uint16", "uint8", "json"}
+
+// recarry rebuilds a document with each json.Number replaced by another Go representation of the same value
+func recarry(r *rand.Rand, v any) any {
+	switch x := v.(type) {
+	case json.Number:
+		tv := numTV(string(x))
+		if tv.N.Sign() == 0 {
+			// a float zero negated is the float -0, which to_string prints as "-0" (observed in round 11, the same
+			// class as the recorded to_string findings of C14); zeros stay out of the float carriers here
+			return int64(0)
+		}
+		for try := 0; try < 4; try++ {
+			if c, ok := numCarrier(tv, nativeKinds[r.Intn(len(nativeKinds))]); ok {
+				return c
+			}
+		}
+		return x
+	case []any:
+		out := make([]any, len(x))
+		for i := range x {
+			out[i] = recarry(r, x[i])
+		}
+		return out
+	case map[string]any:
+		out := make(map[string]any, len(x))
+		for k, e := range x {
+			out[k] = recarry(r, e)
+		}
+		return out
+	}
+	return v
 }
